@@ -950,6 +950,29 @@ func joinProbes(c *hc.Ctx, pls []polyline, isJoin func(hc.P2) bool, hw float64, 
 	return out
 }
 
+// curvedCorpus: minimised past failures of the curved oracle, always run (cases 14, 15, …): regression
+// inputs of repaired defects with the probe points that showed them.
+var curvedCorpus = []struct {
+	class  string
+	path   string
+	w      float64
+	style  strokeStyle
+	probes []hc.P2
+}{
+	// no half disc at the turning point of a collinear control polygon (/repo 5d54c65)
+	{"corpus-cubic", "M0 0C6 0 -3 0 2 0", 1, strokeStyle{1, 1, 4}, []hc.P2{{X: 2.5132678466846783, Y: 0.0007365533300598658}, {X: 2.55, Y: 0}, {X: 0.1, Y: 0.05}}},
+	// quadratic that returns to its start: the point at the end of the accepted piece was never emitted (/repo 5d54c65)
+	{"corpus-cubic", "M0 0Q4 0 0 0", 2, strokeStyle{0, 0, 4}, []hc.P2{{X: 1.8, Y: -0.8}, {X: 2.5, Y: 0}, {X: 1, Y: 0.5}}},
+	// cusp: no half disc above the tip (5,7.5) (/repo 5d54c65)
+	{"corpus-cubic", "M0 0C10 10 0 10 10 0", 1, strokeStyle{0, 1, 4}, []hc.P2{{X: 5, Y: 7.8}, {X: 5.2, Y: 7.7}}},
+	// tangent offset circles: sqrt of a rounding error gave NaN end points, Settle panicked (/repo 04e22f3)
+	{"corpus-cubic-start-tangent-below-resolution", "M6.25 -10A132.70548417118474 5.308219366847389 160.99999999999997 1 1 4 2C4.00000000004 1.99999999997 2 -1 -2 6", 0.8, strokeStyle{0, 4, 4}, nil},
+	{"corpus-cubic-start-tangent-below-resolution", "M-10 -5C1.00000000004 -1.00000000003 1 -1 5 5C-2 1 3 2 3 2", 0.8, strokeStyle{0, 4, 4}, nil},
+	// parallel curve of a non-circular ellipse (/repo 7757b56)
+	{"corpus-ellipse", "M6 0A6 2 0 0 1 -6 0A6 2 0 0 1 6 0z", 0.5, strokeStyle{1, 3, 1.2}, []hc.P2{{X: 4.6340675480038875, Y: 1.0277925781926671}}},
+	{"corpus-ellipse", "M4 0A4 1 0 0 1 -4 0A4 1 0 0 1 4 0z", 1.5, strokeStyle{1, 0, 1.2}, []hc.P2{{X: 2.984331844960035, Y: 0.0528346317979059}, {X: -2.5810316941443223, Y: 0.04192796032510704}}},
+}
+
 func regionCurved(c *hc.Ctx) {
 	n := c.N / 2
 	for it := 0; it < n; it++ {
@@ -1001,6 +1024,12 @@ func regionCurved(c *hc.Ctx) {
 			// always present: clipping arcs joins on one-segment cubic loops (regression class of /repo ad938b1)
 			P, class = genTeardrop(c)
 			st = strokeStyle{c.Intn(3), 5, []float64{1.001, 1.5, 2, 4}[it%4]}
+		}
+		var extraProbes []hc.P2
+		if k := it - 14; k >= 0 && k < len(curvedCorpus) {
+			e := curvedCorpus[k]
+			P, class = canvas.MustParseSVGPath(e.path), e.class
+			w, hw, st, extraProbes = e.w, e.w/2, e.style, e.probes
 		}
 		if it >= 8 && it < 14 {
 			// always present: the half width equals the radius of an arc - one offset side is an arc of radius
@@ -1119,6 +1148,7 @@ func regionCurved(c *hc.Ctx) {
 		}
 		pts := probePoints(c, pls, res, hw, band, 40, st)
 		pts = append(pts, joinProbes(c, pls, func(v hc.P2) bool { return joinsAt[v] }, hw, st, 9)...)
+		pts = append(pts, extraProbes...)
 		lim := math.Max(st.limit, 1.001)
 		verdict := ""
 		for _, pt := range pts {
